@@ -1048,7 +1048,28 @@ pub fn families(prop: &str, tier: Tier) -> Vec<Cfg> {
             h.io.max_write = 16_384;
             h.watchdog_calls = 400;
             h.dev = 1;
-            vec![a, b, c, d, e, f, g, h]
+            // an operation dropped at a pending write that follows a partial write of the same packet, against
+            // the same program with that write pending straight away
+            let mut k = Cfg::base("C15-dropped-at-a-pending-write-after-a-partial-one");
+            k.props = vec!["C15"];
+            k.twin = Some(Twin::DropAtWrite);
+            k.drain_script = true;
+            k.prune = false;
+            k.cancel = true;
+            k.cancel_connect = false;
+            k.ops = vec![OpK::Pub1, OpK::Pub2, OpK::Sub, OpK::Poll, OpK::Drive];
+            k.io = IoMenu::benign();
+            k.io.write_partial = true;
+            k.io.all_partials_upto = if q { 6 } else { 16 };
+            k.io.write_pending = true;
+            k.broker.script = vec![inpub(1, 11)];
+            k.broker.reorder_window = 1;
+            k.broker.fifo = true;
+            k.max_ops = if q { 4 } else { 5 };
+            k.max_conns = 1;
+            k.max_reqs = 2;
+            k.dev = 2;
+            vec![a, b, c, d, e, f, g, h, k]
         }
         "C16" => {
             let mut a = Cfg::base("C16-progress-after-partials-cancels-faults");
